@@ -380,6 +380,13 @@ pub mod model {
         tab
     }
 
+    /// value reported by std::thread::available_parallelism (without touching the schedule model)
+    pub fn set_available(k: usize) {
+        unsafe {
+            AVAILABLE = k;
+        }
+    }
+
     /// no schedule model: atomics keep their sequential meaning, i.e. the first worker drains
     /// the source and later workers come back empty
     pub fn begin_unscheduled(t: usize) {
